@@ -401,7 +401,17 @@ impl Calendar {
             return iso_date.year;
         }
         let calendar_date = self.0.date_from_iso(iso_date.to_icu4x());
-        self.0.year(&calendar_date).extended_year
+        self.arithmetic_year(self.0.year(&calendar_date).extended_year)
+    }
+
+    /// The calendar's arithmetic year for the extended year reported by `ICU4X`.
+    fn arithmetic_year(&self, extended_year: i32) -> i32 {
+        match self.0 .0.kind() {
+            // NOTE: ICU4X reports the ISO year as the extended year of the Minguo calendar;
+            // year 1 of the `roc` era is ISO year 1912.
+            AnyCalendarKind::Roc => extended_year - 1911,
+            _ => extended_year,
+        }
     }
 
     /// `CalendarMonth`
